@@ -8,6 +8,7 @@ import GFO.Model.Grid
 import GFO.Model.Kernels
 import GFO.Model.Init
 import GFO.Model.Tracker
+import GFO.Model.Smbo
 open GFO GFO.Proto
 
 /-- one recorded backend interaction of the real run -/
@@ -51,6 +52,7 @@ structure M where
   byCall : Array (Res × Rat) := #[]            -- objective oracle by objective-call index (if non-empty)
   sdict : Dict Res := []                       -- shared manager dict (C06)
   trk : List (Nat × Tracker) := []             -- trackers by id (C19 / C15)
+  smbo : SmboState := {}                       -- X/Y/candidates of a model-based optimizer (C17)
 
 def M.obj (m : M) : Obj := fun callIdx stepIdx _ =>
   if m.byCall.size > 0 then m.byCall.getD callIdx ({ score := .nan, metrics := [("ORACLE", "exhausted")] }, 0)
@@ -202,6 +204,33 @@ def exec (m : M) (cmd : String) : P (M × List String) := do
   | "initgrid" => do
     let dim ← pNat; let p ← pNat
     pure (m, [showList toString (initGridDim dim p)])
+  | "maxidx" => do
+    let l ← pList pF
+    pure (m, [toString (Tracker.maxListIdx l)])
+  -- ---------------- SMBO bookkeeping (GFO.Model.Smbo)
+  | "xreset" => do
+    let cands ← pList (pList pInt)
+    pure ({ m with smbo := { cands := cands } }, ["ok"])
+  | "xwarm" => do
+    let ps ← pList (do let p ← pList pInt; let s ← pF; pure (p, s))
+    pure ({ m with smbo := { m.smbo with X := ps.map (·.1), Y := ps.map (·.2) } }, ["ok"])
+  | "xpos" => do
+    let p ← pList pInt
+    pure ({ m with smbo := m.smbo.trackX p }, ["ok"])
+  | "xremove" => do
+    let p ← pList pInt
+    pure ({ m with smbo := m.smbo.removePos p }, ["ok"])
+  | "xscore" => do
+    let s ← pF
+    let st := m.smbo.trackY s
+    pure ({ m with smbo := st }, [s!"X={showList showPos st.X} Y={showList showF st.Y} ncands={st.cands.length}"])
+  | "xsel" => do
+    let acq ← pList pF
+    let perm ← pList pNat
+    pure (m, [s!"sorted={showBool (sortsAscending acq perm)} idx={showOpt toString (selectIdx perm)}"])
+  | "xwarmfilter" => do
+    let rows ← pList (do let v ← pN m.sp.dims.length pF; let s ← pF; pure (v, s))
+    pure (m, [showList (fun r => showList showRat r.1 ++ ":" ++ showRat r.2) (warmFilter m.sp.dims rows)])
   -- ---------------- trackers (GFO.Model.Tracker)
   | "treset" => pure ({ m with trk := [] }, ["ok"])
   | "t" => do
